@@ -66,6 +66,24 @@ static const uint8_t CONmtModeCode[CO_MODE_NUM] = {
 };
 
 /******************************************************************************
+* PRIVATE FUNCTIONS
+******************************************************************************/
+
+static void CONmtResetObj(CO_NMT *nmt, uint32_t key)
+{
+    CO_OBJ *obj;
+    CO_ERR  err;
+
+    obj = CODictFind(&(nmt->Node->Dict), key);
+    if (obj != NULL) {
+        err = COObjInit(obj, nmt->Node);
+        if (err != CO_ERR_NONE) {
+            nmt->Node->Error = CO_ERR_OBJ_INIT;
+        }
+    }
+}
+
+/******************************************************************************
 * PROTECTED API FUNCTIONS
 ******************************************************************************/
 
@@ -115,6 +133,10 @@ void CONmtReset(CO_NMT *nmt, CO_NMT_RESET type)
         COIfCanReset(&nmt->Node->If);
         COEmcyReset(&nmt->Node->Emcy, 1);
         COSyncInit(&nmt->Node->Sync, nmt->Node);
+        /* restart the services, configured in communication objects */
+        CONmtResetObj(nmt, CO_DEV(0x1005, 0));
+        CONmtResetObj(nmt, CO_DEV(0x1016, 0));
+        CONmtResetObj(nmt, CO_DEV(0x1017, 0));
         if (nobootup == 0) {
             CONmtBootup(nmt);
         }
